@@ -295,6 +295,8 @@ type c17Env struct {
 	expected int64    // listener invocations there must have been by now: sum over restores of the listeners registered then
 	good     int      // invocations that saw the database their restore swapped in
 	dead     bool     // a restore hung: the remaining operations are skipped, the directory is left behind
+	// slot -> the path the last snapshot call for that slot RETURNED (c17_paths.go); restores read that file
+	returned map[string]string
 }
 
 func c17Open() (*c17Env, error) {
@@ -339,6 +341,7 @@ func (e *c17Env) dump() string {
 	return res
 }
 
+// the path ARGUMENT of the plain snapshot operations of slot k; the file a restore of slot k reads is slotFile(k)
 func (e *c17Env) slot(k string) string { return filepath.Join(e.dir, "slot"+k) }
 
 func c17Writes(tx *bbolt.Tx, ws string) error {
@@ -419,29 +422,34 @@ func (e *c17Env) op(tok string) string {
 		return "ok"
 	case "snap":
 		at := e.dump()
-		_, id, err := e.db.Snapshot(e.slot(f[1]))
+		actual, id, err := e.db.Snapshot(e.slot(f[1]))
+		e.setSlot(f[1], actual, err)
 		return e.snapped(id, err, at)
 	case "snapt":
 		at := e.dump()
-		var id string
+		var id, actual string
 		err := e.db.View(func(tx *bbolt.Tx) error {
 			var err error
-			_, id, err = e.db.SnapshotInTx(tx, e.slot(f[1]))
+			actual, id, err = e.db.SnapshotInTx(tx, e.slot(f[1]))
 			return err
 		})
+		e.setSlot(f[1], actual, err)
 		return e.snapped(id, err, at)
 	case "snapu":
 		at := e.dump()
-		var id string
+		var id, actual string
 		err := e.db.Update(nil, func(ctx boltz.MutateContext) error {
 			if err := c17Writes(ctx.Tx(), f[2]); err != nil {
 				return err
 			}
 			var err error
-			_, id, err = e.db.SnapshotInTx(ctx.Tx(), e.slot(f[1]))
+			actual, id, err = e.db.SnapshotInTx(ctx.Tx(), e.slot(f[1]))
 			return err
 		})
+		e.setSlot(f[1], actual, err)
 		return e.snapped(id, err, at)
+	case "snapp", "snaptp", "snapup":
+		return e.snapTemplate(f)
 	case "snapf":
 		_, _, err := e.db.Snapshot(filepath.Join(e.dir, "no-such-dir", "x"))
 		if err != nil {
@@ -459,19 +467,20 @@ func (e *c17Env) op(tok string) string {
 		if err != nil {
 			return "err"
 		}
+		e.setSlot(f[1], e.slot(f[1]), nil)
 		return "streamed:" + at
 	case "rest", "restr":
-		if _, err := os.Stat(e.slot(f[1])); err != nil {
+		if _, err := os.Stat(e.slotFile(f[1])); err != nil {
 			return "nofile"
 		}
 		if f[0] == "rest" {
-			data, err := os.ReadFile(e.slot(f[1]))
+			data, err := os.ReadFile(e.slotFile(f[1]))
 			if err != nil {
 				return "nofile"
 			}
 			e.db.RestoreSnapshot(data)
 		} else if len(f) == 5 {
-			data, err := os.ReadFile(e.slot(f[1]))
+			data, err := os.ReadFile(e.slotFile(f[1]))
 			if err != nil {
 				return "nofile"
 			}
@@ -487,7 +496,7 @@ func (e *c17Env) op(tok string) string {
 			}
 			e.db.RestoreFromReader(rd)
 		} else {
-			file, err := os.Open(e.slot(f[1]))
+			file, err := os.Open(e.slotFile(f[1]))
 			if err != nil {
 				return "nofile"
 			}
@@ -765,6 +774,11 @@ func c17Conc(kinds string, iters int, seed uint64) string {
 		return problem
 	}
 	// after the dust settles: one listener call per restore, and the final state is consistent
+	// under load a `go listener()` goroutine may not have been scheduled yet when the last restore returns: give
+	// the expected number up to 2 s to arrive, then wait for the counter to be stable (a surplus still shows)
+	for i := 0; i < 2000 && e.fired.Load() < int64(restores); i++ {
+		time.Sleep(time.Millisecond)
+	}
 	fired := e.waitListeners()
 	if int(fired) != restores {
 		return fmt.Sprintf("listeners:%d/%d", fired, restores)
@@ -892,12 +906,21 @@ func c17GenOp(r *rng, slots int) string {
 		}
 		return "tx:" + c17GenWrites(r) + ":" + c
 	case x < 35:
+		if r.chance(1, 3) { // with a path template (c17_paths.go)
+			return fmt.Sprintf("snapp:%d:%s", slot, c17GenTmpl(r, slot))
+		}
 		return fmt.Sprintf("snap:%d", slot)
 	case x < 38:
 		return c17GenInTx(r, slot)
 	case x < 44:
+		if r.chance(1, 3) {
+			return fmt.Sprintf("snaptp:%d:%s", slot, c17GenTmpl(r, slot))
+		}
 		return fmt.Sprintf("snapt:%d", slot)
 	case x < 48:
+		if r.chance(1, 3) {
+			return fmt.Sprintf("snapup:%d:%s:%s", slot, c17GenWrites(r), c17GenTmpl(r, slot))
+		}
 		return fmt.Sprintf("snapu:%d:%s", slot, c17GenWrites(r))
 	case x < 50:
 		return "snapf"
@@ -938,6 +961,7 @@ func c17Gen(tier string, seed uint64, out *bufio.Writer) {
 		}
 	}
 	c17GenStagedFixed(out, tier)
+	c17GenPathsFixed(out)
 	nseq, maxLen := 150, 16
 	nconc := 6
 	if tier == "thorough" {
@@ -974,6 +998,9 @@ func c17Gen(tier string, seed uint64, out *bufio.Writer) {
 		// make sure the property's shape occurs: a snapshot early, a restore late
 		if r.chance(3, 4) {
 			ops[r.intn(1+len(ops)/3)] = fmt.Sprintf("%s:%d", pick(r, []string{"snap", "snapt", "snap", "stream"}), 0)
+			if r.chance(1, 4) {
+				ops[r.intn(1+len(ops)/3)] = fmt.Sprintf("%s:0:%s", pick(r, []string{"snapp", "snaptp"}), c17GenTmpl(r, 0))
+			}
 			restore := fmt.Sprintf("%s:0", pick(r, []string{"rest", "restr"}))
 			if r.chance(1, 2) {
 				restore = "restr:0:" + c17GenReader(r)
